@@ -77,12 +77,15 @@ type BuildCase struct {
 	Repeat int     `json:"repeat"` // repeat the plain build this many extra times
 	Faults bool    `json:"faults"` // inject every single write-open / commit failure
 	Ref    bool    `json:"ref"`    // compare with the reference importer / HAMT
+	MixV0  bool    `json:"mixv0"`  // directories: mixed CIDv0 / CIDv1 entry links
 }
 
 type fragReader struct {
 	b     []byte
 	sizes []int
 	i     int
+	// eofWithData: the last fragment is returned together with io.EOF (io.Reader allows both styles)
+	eofWithData bool
 }
 
 func (f *fragReader) Read(p []byte) (int, error) {
@@ -102,6 +105,9 @@ func (f *fragReader) Read(p []byte) (int, error) {
 	}
 	copy(p, f.b[:n])
 	f.b = f.b[n:]
+	if f.eofWithData && len(f.b) == 0 {
+		return n, io.EOF
+	}
 	return n, nil
 }
 
@@ -183,12 +189,13 @@ func countChunks(content []byte, chunker string) int {
 }
 
 type buildVariant struct {
-	input      int
-	order      []int
-	frag       []int
-	failOpen   int
-	failCommit int
-	tag        string
+	input       int
+	order       []int
+	frag        []int
+	failOpen    int
+	failCommit  int
+	tag         string
+	eofWithData bool
 }
 
 // oneBuild runs a single build variant on a fresh store.
@@ -213,14 +220,14 @@ func oneBuild(bc *BuildCase, v buildVariant, cc *caseClasses, content []byte, tr
 			builder.DefaultLinksPerBlock = bc.W
 			var r io.Reader = bytes.NewReader(content)
 			if v.frag != nil {
-				r = &fragReader{b: append([]byte(nil), content...), sizes: v.frag}
+				r = &fragReader{b: append([]byte(nil), content...), sizes: v.frag, eofWithData: v.eofWithData}
 			}
 			lnk, size, err = builder.BuildUnixFSFile(r, bc.Chunker, ls)
 		case "symlink":
 			lnk, size, err = builder.BuildUnixFSSymlink(bc.Target, ls)
 		case "dir", "sharded", "quickdir":
 			dc := &DirCase{Builder: map[string]string{"dir": "dir", "sharded": "sharded", "quickdir": "quick"}[bc.What],
-				Fanout: bc.Fanout, Universe: bc.Universe, Entries: v.order}
+				Fanout: bc.Fanout, Universe: bc.Universe, Entries: v.order, MixV0: bc.MixV0}
 			dc.Links = make([]int, len(v.order))
 			for i, id := range v.order {
 				dc.Links[i] = id % nTargets
@@ -336,6 +343,7 @@ func runBuildCase(bc *BuildCase, tr *Tr) error {
 	}
 	for i, f := range bc.Frags {
 		emit(buildVariant{input: 1, order: bc.Entries, frag: f, tag: fmt.Sprintf("frag-%d", i)})
+		emit(buildVariant{input: 1, order: bc.Entries, frag: f, eofWithData: true, tag: fmt.Sprintf("frag-eof-%d", i)})
 	}
 	if bc.Faults {
 		nOpens, nCommits := st.opens, len(st.commits)
@@ -599,6 +607,32 @@ func init() {
 						if err := runBuildCase(bc, tr); err != nil {
 							return err
 						}
+					}
+				}
+			}
+		case "mixdir":
+			// directories whose size estimate is within 1% of the auto-shard threshold, with entry links of two
+			// different lengths (CIDv0 / CIDv1): the same entries in several orders and repeated (map-ordered) builds
+			for _, n := range []int{1944, 1945, 1946, 1950} {
+				if n > *maxN*200 {
+					continue
+				}
+				u := make([]string, n)
+				ids := make([]int, n)
+				for i := range u {
+					u[i] = fmt.Sprintf("%0100d", i)
+					ids[i] = i + 1
+				}
+				rot := append(append([]int{}, ids[1:]...), ids[0])
+				rev := make([]int, n)
+				for i := range ids {
+					rev[i] = ids[n-1-i]
+				}
+				for _, what := range []string{"dir", "quickdir"} {
+					bc := &BuildCase{Fam: "build", ID: fmt.Sprintf("mixdir-%s-%d", what, n), What: what, Universe: u, Entries: ids,
+						Orders: [][]int{rot, rev}, Repeat: *repeat, MixV0: true}
+					if err := runBuildCase(bc, tr); err != nil {
+						return err
 					}
 				}
 			}
